@@ -637,6 +637,7 @@ package pokertable
 //@   property C01 C02 C03
 //@   returns newPS, newSeatMap, newGPI
 //@   config M 2..10 quick 2..5 : tableMaxSeatCount = M
+//@   requires 2 <= tableMaxSeatCount && tableMaxSeatCount <= 10
 //@   requires te != nil && te.table != nil && St(te) != nil && 0 <= len(leavePlayerIDs) && len(leavePlayerIDs) <= 10 && 0 <= len(currentPlayers) && len(currentPlayers) <= tableMaxSeatCount
 //@   requires forall(i, 0, 10, i < len(currentPlayers) ==> currentPlayers[i] != nil && 0 <= currentPlayers[i].Seat && currentPlayers[i].Seat < tableMaxSeatCount)
 //@   requires forall(i, 0, 10, forall(j, 0, 10, i < j && j < len(currentPlayers) ==> currentPlayers[i] != currentPlayers[j] && currentPlayers[i].PlayerID != currentPlayers[j].PlayerID && currentPlayers[i].Seat != currentPlayers[j].Seat))
@@ -870,7 +871,7 @@ package pokertable
 
 // Table.Clone is a JSON round trip: modelled (trusted) as a deep copy — a fresh object graph, field-wise equal.
 //@ spec playerCopied(a, b) = a != nil && a.PlayerID == b.PlayerID && a.Seat == b.Seat && a.Bankroll == b.Bankroll && a.IsIn == b.IsIn && a.IsParticipated == b.IsParticipated
-//@       && a.GameStatistics == b.GameStatistics
+//@       && a.GameStatistics == b.GameStatistics && len(a.Positions) == len(b.Positions)
 //@ func (Table).Clone
 //@   trusted JSON round trip (encoding/json Marshal + Unmarshal): a fresh, disjoint object graph, field-wise equal on the fields the contracts mention
 //@   returns c, err
@@ -922,11 +923,43 @@ package pokertable
 //@   ensures at-least-two: len(r) >= 2
 //@   ensures starts-at-the-dealer-when-dealt-in: partAt(players, seatMap, currentDealerSeatID) ==> players[r[0]].Seat == currentDealerSeatID
 
+// ---- labels (C06) ----
+// slot(sm, s): seat s takes a position slot: it is one of the three button seats or holds a dealt-in player
+//@ spec slot(sm, s) = s == sm.DealerSeatID || s == sm.SBSeatID || s == sm.BBSeatID || ActiveAt(sm, s)
+//@ spec slotCount(sm) = cnt(s, 0, sm.MaxSeat, slot(sm, s))
+//@ spec sitsAt(players, sm, i, s) = ActiveAt(sm, s) && sm.SeatData[s].ID == players[i].PlayerID
+//@ spec dealtIn(players, sm, i) = exists(s, 0, 10, s < sm.MaxSeat && sitsAt(players, sm, i, s))
+// the dead-button geometry the seat manager maintains between rotations (C04): the big-blind seat holds a dealt-in player,
+// the small-blind seat lies between dealer and big blind (or is the dealer seat heads-up), and nobody strictly between
+// the dealer and the big blind other than the small blind is dealt in
+//@ spec Geom(sm) = ActiveAt(sm, sm.BBSeatID) && sm.DealerSeatID != sm.BBSeatID
+//@     && (sm.DealerSeatID == sm.SBSeatID || between(sm, sm.DealerSeatID, sm.BBSeatID, sm.SBSeatID))
+//@     && forall(s, 0, 10, s < sm.MaxSeat && between(sm, sm.DealerSeatID, sm.BBSeatID, s) && s != sm.SBSeatID ==> !ActiveAt(sm, s))
+//@     && (sm.DealerSeatID == sm.SBSeatID ==> ActiveAt(sm, sm.DealerSeatID) && activeCount(sm) == 2)
+
 //@ func (*tableEngine).updatePlayerPositions
-//@   trusted placeholder until the C06 contract lands: writes only the Positions of the given players
+//@   partial discharged for seat counts 2..5; larger tables exceed the solver budget (callers assume the contract there)
+//@   property C06
+//@   config M 2..5 quick 2..4 : maxSeat = M, te.sm.MaxSeat = M, len(te.sm.SeatData) = M
+//@   requires te != nil && ref(te.sm) != 0 && typeis(te.sm, "*seat_manager.seatManager") && SmWF(te.sm) && te.sm.IsInit && te.sm.Rule == "default" && !held(te.sm.mu)
+//@   requires 0 <= len(players) && len(players) <= maxSeat && forall(i, 0, 10, i < len(players) ==> players[i] != nil && 0 <= len(players[i].Positions) && len(players[i].Positions) <= 10)
+//@   requires forall(i, 0, 10, forall(j, 0, 10, i < j && j < len(players) ==> players[i] != players[j] && players[i].PlayerID != players[j].PlayerID))
+//@   requires forall(s, 0, 10, s < maxSeat && ActiveAt(te.sm, s) ==> exists(i, 0, 10, i < len(players) && sitsAt(players, te.sm, i, s)))
+//@   requires activeCount(te.sm) >= 2
 //@   modifies forall(i, 0, 10, i < len(players) ==> players[i].Positions)
 //@   allocates
-//@   ensures forall(i, 0, 10, i < len(players) ==> 0 <= len(players[i].Positions) && len(players[i].Positions) <= 10)
+//@   loop 0 unroll M
+//@   loop 1 unroll 10
+//@   loop 2 unroll M
+//@   loop 3 unroll M
+//@   ensures shapes: forall(i, 0, 10, i < len(players) ==> 0 <= len(players[i].Positions) && len(players[i].Positions) <= 10)
+//@   ensures big-blind-seat-is-labelled-bb: Geom(te.sm) ==> forall(i, 0, 10, i < len(players) && sitsAt(players, te.sm, i, te.sm.BBSeatID) ==> len(players[i].Positions) == 1 && players[i].Positions[0] == "bb")
+//@   ensures small-blind-seat-is-labelled-sb: Geom(te.sm) && te.sm.DealerSeatID != te.sm.SBSeatID ==> forall(i, 0, 10, i < len(players) && sitsAt(players, te.sm, i, te.sm.SBSeatID) ==> len(players[i].Positions) == 1 && players[i].Positions[0] == "sb")
+//@   ensures dealer-seat-is-labelled-dealer: Geom(te.sm) && te.sm.DealerSeatID != te.sm.SBSeatID ==> forall(i, 0, 10, i < len(players) && sitsAt(players, te.sm, i, te.sm.DealerSeatID) ==> len(players[i].Positions) == 1 && players[i].Positions[0] == "dealer")
+//@   ensures heads-up-dealer-is-small-blind: Geom(te.sm) && te.sm.DealerSeatID == te.sm.SBSeatID ==> forall(i, 0, 10, i < len(players) && sitsAt(players, te.sm, i, te.sm.DealerSeatID) ==> len(players[i].Positions) == 2 && players[i].Positions[0] == "dealer" && players[i].Positions[1] == "sb")
+//@   ensures every-dealt-in-player-has-a-label: Geom(te.sm) ==> forall(i, 0, 10, i < len(players) && dealtIn(players, te.sm, i) ==> len(players[i].Positions) >= 1)
+//@   ensures nobody-else-gets-one: forall(i, 0, 10, i < len(players) && !dealtIn(players, te.sm, i) ==> sameslice(players[i].Positions, old(players[i].Positions)))
+//@   ensures no-two-players-share-a-label: Geom(te.sm) ==> forall(i, 0, 10, forall(j, 0, 10, i < j && j < len(players) && dealtIn(players, te.sm, i) && dealtIn(players, te.sm, j) ==> players[i].Positions[0] != players[j].Positions[0]))
 
 //@ func (TableBlindState).IsSet
 //@   inline
@@ -939,11 +972,13 @@ package pokertable
 //@     && nt.State.BlindState != nil && fresh(nt.State.BlindState) && nt.State.BlindState.Level == oldTable.State.BlindState.Level && nt.State.GameState == nil
 //@     && forall(i, 0, 10, i < len(nt.State.PlayerStates) ==> fresh(nt.State.PlayerStates[i]) && 0 <= len(nt.State.PlayerStates[i].Positions) && len(nt.State.PlayerStates[i].Positions) <= 10)
 
+//@ spec LabelsBounded(te) = forall(i, 0, 10, i < len(PS(te)) ==> 0 <= len(PS(te)[i].Positions) && len(PS(te)[i].Positions) <= 10)
+
 //@ func (*tableEngine).openGame
 //@   property C05 C07 C12
 //@   returns nt, err
 //@   config M 2..10 quick 2..5 : te.table.Meta.TableMaxSeatCount = M, te.sm.MaxSeat = M, len(te.sm.SeatData) = M
-//@   requires TableWF(te) && Coupled(te) && oldTable == te.table && St(te).BlindState != nil && St(te).GameState == nil
+//@   requires TableWF(te) && Coupled(te) && oldTable == te.table && St(te).BlindState != nil && St(te).GameState == nil && LabelsBounded(te)
 //@   requires te.table.Meta.Rule == CompetitionRule_Default && te.sm.Rule == "default"     // default-rule tables; short deck is not covered by this contract
 //@   modifies te.sm.DealerSeatID, te.sm.SBSeatID, te.sm.BBSeatID, te.sm.IsInit, forall(s, 0, M, te.sm.SeatData[s].IsBetweenDealerBB)
 //@   loop 0 unroll 10
@@ -1084,7 +1119,7 @@ package pokertable
 //@   property C07 C08 C16
 //@   returns err
 //@   config M 2..10 quick 2..4 : te.table.Meta.TableMaxSeatCount = M, te.sm.MaxSeat = M, len(te.sm.SeatData) = M
-//@   requires TableWF(te) && Coupled(te) && St(te).BlindState != nil && te.gameBackend != nil && !held(te.lock)
+//@   requires TableWF(te) && Coupled(te) && St(te).BlindState != nil && te.gameBackend != nil && !held(te.lock) && LabelsBounded(te)
 //@   requires te.table.Meta.Rule == CompetitionRule_Default && te.sm.Rule == "default"     // default-rule tables
 //@   guarded te.lock : "pokertable.tableEngine.table", "pokertable.tableEngine.game", "pokertable.tableEngine.sm", "pokertable.Table.", "pokertable.TableState.", "pokertable.TablePlayerState."
 //@   modifies te.table, te.game, te.sm.DealerSeatID, te.sm.SBSeatID, te.sm.BBSeatID, te.sm.IsInit, forall(s, 0, M, te.sm.SeatData[s].IsBetweenDealerBB), log
@@ -1115,6 +1150,7 @@ package pokertable
 //@ spec allRandom(players) = forall(i, 0, 10, i < len(players) ==> players[i].Seat == -1)
 
 //@ func (*tableEngine).batchAddPlayers
+//@   partial discharged for seat counts 2..5; larger tables exceed the solver budget (callers assume the contract there)
 //@   property C01 C02 C03 C05
 //@   returns err
 //@   config M 2..5 quick 2..3 : te.table.Meta.TableMaxSeatCount = M, te.sm.MaxSeat = M, len(te.sm.SeatData) = M, len(te.table.State.SeatMap) = M
@@ -1172,6 +1208,7 @@ package pokertable
 //@   inline
 
 //@ func (*tableEngine).UpdateTablePlayers
+//@   partial discharged for seat counts 2..3; larger tables exceed the solver budget
 //@   retsplit
 //@   property C03 C16
 //@   returns seats, err
